@@ -10,8 +10,14 @@ import (
 	"math/rand"
 	"os"
 
+	"context"
+
 	"github.com/libsv/go-bk/bec"
+	"github.com/libsv/go-bt/v2"
+	"github.com/libsv/go-bt/v2/bscript"
 	"github.com/libsv/go-bt/v2/bscript/interpreter/scriptflag"
+	"github.com/libsv/go-bt/v2/sighash"
+	"github.com/libsv/go-bt/v2/unlocker"
 )
 
 func init() { register("sigs", sigsCmd) }
@@ -41,39 +47,41 @@ func outpoint(i caseIn) []byte {
 
 func u32(v uint32) []byte { b := make([]byte, 4); binary.LittleEndian.PutUint32(b, v); return b }
 
-func myPreimage(tx *caseTx, idx int, code []byte, amount uint64, ht byte, fork bool) []byte {
+func myPreimageH(tx *caseTx, idx int, code []byte, amount uint64, ht byte, fork bool) ([]byte, [][2][]byte) {
+	var hs [][2][]byte
+	h := func(b []byte) []byte { o := sha256d(b); hs = append(hs, [2][]byte{append([]byte{}, b...), o}); return o }
 	base := ht & 0x1f
 	acp := ht&0x80 != 0
 	if fork {
 		zero := make([]byte, 32)
-		hp, hs, ho := zero, zero, zero
+		hp, hsq, ho := zero, zero, zero
 		if !acp {
 			var b []byte
 			for _, i := range tx.Ins {
 				b = append(b, outpoint(i)...)
 			}
-			hp = sha256d(b)
+			hp = h(b)
 		}
 		if !acp && base != 2 && base != 3 {
 			var b []byte
 			for _, i := range tx.Ins {
 				b = append(b, u32(i.Seq)...)
 			}
-			hs = sha256d(b)
+			hsq = h(b)
 		}
 		if base != 2 && base != 3 {
 			var b []byte
 			for _, o := range tx.Outs {
 				b = append(b, outBytes(o)...)
 			}
-			ho = sha256d(b)
+			ho = h(b)
 		} else if base == 3 && idx < len(tx.Outs) {
-			ho = sha256d(outBytes(tx.Outs[idx]))
+			ho = h(outBytes(tx.Outs[idx]))
 		}
 		var p []byte
 		p = append(p, u32(tx.Ver)...)
 		p = append(p, hp...)
-		p = append(p, hs...)
+		p = append(p, hsq...)
 		p = append(p, outpoint(tx.Ins[idx])...)
 		p = append(p, vint(uint64(len(code)), minWidth(uint64(len(code))))...)
 		p = append(p, code...)
@@ -83,12 +91,12 @@ func myPreimage(tx *caseTx, idx int, code []byte, amount uint64, ht byte, fork b
 		p = append(p, u32(tx.Ins[idx].Seq)...)
 		p = append(p, ho...)
 		p = append(p, u32(tx.Lt)...)
-		return append(p, ht, 0, 0, 0)
+		return append(p, ht, 0, 0, 0), hs
 	}
 	if base == 3 && idx >= len(tx.Outs) {
 		one := make([]byte, 32)
 		one[0] = 1
-		return one
+		return one, hs
 	}
 	var p []byte
 	p = append(p, u32(tx.Ver)...)
@@ -131,7 +139,12 @@ func myPreimage(tx *caseTx, idx int, code []byte, amount uint64, ht byte, fork b
 		}
 	}
 	p = append(p, u32(tx.Lt)...)
-	return append(p, ht, 0, 0, 0)
+	return append(p, ht, 0, 0, 0), hs
+}
+
+func myPreimage(tx *caseTx, idx int, code []byte, amount uint64, ht byte, fork bool) []byte {
+	p, _ := myPreimageH(tx, idx, code, amount, ht, fork)
+	return p
 }
 
 func derInt(v *big.Int) []byte {
@@ -155,10 +168,24 @@ type keyPair struct {
 	priv *bec.PrivateKey
 }
 
+type hashPair struct {
+	In  []int `json:"in"`
+	Out []int `json:"out"`
+}
 type sigNote struct {
-	Bytes  []int `json:"bytes"`
-	Signer int   `json:"signer"`
-	Pre    []int `json:"pre"`
+	Bytes  []int      `json:"bytes"`
+	Signer int        `json:"signer"`
+	Pre    []int      `json:"pre"`
+	Hs     []hashPair `json:"hs"` // the hashes embedded in Pre: what was hashed -> the 32 bytes
+}
+
+func hsOf(tx *caseTx, idx int, code []byte, amount uint64, ht byte, fork bool) []hashPair {
+	_, hs := myPreimageH(tx, idx, code, amount, ht, fork)
+	out := []hashPair{}
+	for _, x := range hs {
+		out = append(out, hashPair{ints(x[0]), ints(x[1])})
+	}
+	return out
 }
 
 // scenario builder state
@@ -209,10 +236,12 @@ func (s *scen) sign(class string, k keyPair, tx *caseTx, idx int, code []byte, a
 		signer = s.keys[(k.id)%len(s.keys)] // a different key (ids are 1-based)
 	}
 	pre := myPreimage(tx, idx, code, amount, ht, fork)
+	hsn := hsOf(tx, idx, code, amount, ht, fork)
 	if class == "wrongmsg" {
 		t2 := *tx
 		t2.Lt = tx.Lt + 1
 		pre = myPreimage(&t2, idx, code, amount, ht, fork)
+		hsn = hsOf(&t2, idx, code, amount, ht, fork)
 	}
 	digest := pre
 	if !(len(pre) == 32 && !fork) {
@@ -235,7 +264,7 @@ func (s *scen) sign(class string, k keyPair, tx *caseTx, idx int, code []byte, a
 		der = append([]byte{0x30, byte(len(body))}, body...)
 	}
 	full := append(der, ht)
-	s.notes = append(s.notes, sigNote{Bytes: ints(full), Signer: signer.id, Pre: ints(pre)})
+	s.notes = append(s.notes, sigNote{Bytes: ints(full), Signer: signer.id, Pre: ints(pre), Hs: hsn})
 	return full
 }
 
@@ -258,6 +287,7 @@ func sigsCmd(args []string) error {
 	fs := flag.NewFlagSet("sigs", flag.ExitOnError)
 	out := fs.String("out", "sigs-cases.ndjson", "vm cases file (then run `vh vm -cases`)")
 	n := fs.Int("n", 600, "scenarios per family")
+	mode := fs.String("mode", "sigops", "sigops (C06 scenarios) | commit (C04: library-made signatures and mutations)")
 	fs.Parse(args)
 	rng := newRand(6)
 	s := &scen{rng: rng, seenK: map[string]bool{}}
@@ -338,6 +368,9 @@ func sigsCmd(args []string) error {
 	}
 	isFork := func(fl scriptflag.Flag, ht byte) bool { return fl&scriptflag.EnableSighashForkID != 0 && ht&0x40 != 0 }
 
+	if *mode == "commit" {
+		return commitScenarios(s, rng, *n, emit)
+	}
 	for i := 0; i < *n; i++ {
 		// ---- family 1: P2PK / P2PKH, CHECKSIG(VERIFY), code separators -------------------------------
 		fl := randFlags()
@@ -456,6 +489,182 @@ func sigsCmd(args []string) error {
 			unlock = append(unlock, pushBytes(s.sign(cl, ks[order[j]], tx, idx, scode, amount, ht, isFork(fl, ht)))...)
 		}
 		emit("multi", "multisig", unlock, lock, fl, tx, idx, amount)
+	}
+	return nil
+}
+
+// ---- C04: signatures made by the library's signing path, then single-field mutations ---------------
+
+func cloneCaseTx(t *caseTx) *caseTx {
+	c := &caseTx{Ver: t.Ver, Lt: t.Lt}
+	c.Ins = append(c.Ins, t.Ins...)
+	for _, o := range t.Outs {
+		c.Outs = append(c.Outs, caseOut{Sats: o.Sats, Script: append([]int{}, o.Script...)})
+	}
+	return c
+}
+
+func commitScenarios(s *scen, rng *rand.Rand, n int, emit func(id, src string, unlock, lock []byte, fl scriptflag.Flag, tx *caseTx, idx int, amount uint64)) error {
+	forkTypes := []byte{0x41, 0x42, 0x43, 0xc1, 0xc2, 0xc3}
+	legacyTypes := []byte{0x01, 0x02, 0x03, 0x81, 0x82, 0x83}
+	for it := 0; it < n; it++ {
+		k := s.keys[rng.Intn(len(s.keys))]
+		pub := k.priv.PubKey().SerialiseCompressed()
+		fork := it%2 == 0
+		ht := legacyTypes[rng.Intn(6)]
+		fl := scriptflag.Flag(0)
+		if fork {
+			ht = forkTypes[rng.Intn(6)]
+			fl = scriptflag.EnableSighashForkID | scriptflag.UTXOAfterGenesis
+		}
+		if rng.Intn(3) == 0 {
+			fl |= scriptflag.VerifyNullFail | scriptflag.VerifyLowS | scriptflag.VerifyDERSignatures
+		}
+		// shape
+		tx := &caseTx{Ver: []uint32{1, 2}[rng.Intn(2)], Lt: uint32(rng.Intn(4))}
+		nin := 1 + rng.Intn(3)
+		for i := 0; i < nin; i++ {
+			tx.Ins = append(tx.Ins, caseIn{Tag: 0x30 + i, Vout: uint32(rng.Intn(3)), Seq: []uint32{0xffffffff, 0xfffffffe, 7}[rng.Intn(3)]})
+		}
+		for i, nout := 0, rng.Intn(4); i < nout; i++ {
+			tx.Outs = append(tx.Outs, caseOut{Sats: uint64(1000 + rng.Intn(5000)), Script: ints(*p2pkhScript(byte(i + 1)))})
+		}
+		idx := rng.Intn(nin)
+		amount := uint64(1 + rng.Intn(100000))
+		var lock *bscript.Script
+		lock, _ = bscript.NewP2PKHFromPubKeyBytes(pub)
+		if rng.Intn(4) == 0 {
+			lock = inscriptionScript(k.priv, rng.Intn(20))
+		}
+		// sign through the library
+		real := tx.build(idx, bscript.NewFromBytes([]byte{}))
+		real.Inputs[idx].UnlockingScript = nil
+		real.Inputs[idx].PreviousTxScript = lock
+		real.Inputs[idx].PreviousTxSatoshis = amount
+		var err error
+		if rng.Intn(2) == 0 && ht == 0x41 && nin == 1 {
+			err = real.FillAllInputs(context.Background(), &unlocker.Getter{PrivateKey: k.priv})
+		} else if rng.Intn(2) == 0 && ht == 0x41 {
+			err = real.FillInput(context.Background(), &unlocker.Simple{PrivateKey: k.priv}, bt.UnlockerParams{InputIdx: uint32(idx)}) // default hash type
+		} else {
+			err = real.FillInput(context.Background(), &unlocker.Simple{PrivateKey: k.priv}, bt.UnlockerParams{InputIdx: uint32(idx), SigHashFlags: sighash.Flag(ht)})
+		}
+		if err != nil || real.Inputs[idx].UnlockingScript == nil {
+			continue
+		}
+		unlock := []byte(*real.Inputs[idx].UnlockingScript)
+		parts, perr := bscript.DecodeParts(unlock)
+		if perr != nil || len(parts) != 2 {
+			continue
+		}
+		sig := parts[0]
+		// what the specification will be asked about: "key k signed this preimage"
+		note := func(t *caseTx, i int, code []byte, amt uint64) {
+			s.keyBytes(k, "comp")
+			s.notes = append(s.notes, sigNote{Bytes: ints(sig), Signer: k.id, Pre: ints(myPreimage(tx, idx, []byte(*lock), amount, ht, fork)), Hs: hsOf(tx, idx, []byte(*lock), amount, ht, fork)})
+		}
+		note(tx, idx, *lock, amount)
+		emit("base", "commit-base", unlock, *lock, fl, tx, idx, amount)
+		// mutations
+		type mut struct {
+			name string
+			f    func(t *caseTx, i *int, amt *uint64, lk *[]byte) bool
+		}
+		other := func(t *caseTx, i int) int {
+			if len(t.Ins) < 2 {
+				return -1
+			}
+			return (i + 1) % len(t.Ins)
+		}
+		muts := []mut{
+			{"version", func(t *caseTx, i *int, a *uint64, l *[]byte) bool { t.Ver++; return true }},
+			{"locktime", func(t *caseTx, i *int, a *uint64, l *[]byte) bool { t.Lt++; return true }},
+			{"own-outpoint", func(t *caseTx, i *int, a *uint64, l *[]byte) bool { t.Ins[*i].Vout++; return true }},
+			{"other-outpoint", func(t *caseTx, i *int, a *uint64, l *[]byte) bool {
+				o := other(t, *i)
+				if o < 0 {
+					return false
+				}
+				t.Ins[o].Vout++
+				return true
+			}},
+			{"own-sequence", func(t *caseTx, i *int, a *uint64, l *[]byte) bool { t.Ins[*i].Seq ^= 1; return true }},
+			{"other-sequence", func(t *caseTx, i *int, a *uint64, l *[]byte) bool {
+				o := other(t, *i)
+				if o < 0 {
+					return false
+				}
+				t.Ins[o].Seq ^= 1
+				return true
+			}},
+			{"output-value-same-index", func(t *caseTx, i *int, a *uint64, l *[]byte) bool {
+				if *i >= len(t.Outs) {
+					return false
+				}
+				t.Outs[*i].Sats++
+				return true
+			}},
+			{"output-script-same-index", func(t *caseTx, i *int, a *uint64, l *[]byte) bool {
+				if *i >= len(t.Outs) {
+					return false
+				}
+				t.Outs[*i].Script[5] ^= 1
+				return true
+			}},
+			{"output-value-other-index", func(t *caseTx, i *int, a *uint64, l *[]byte) bool {
+				for k := range t.Outs {
+					if k != *i {
+						t.Outs[k].Sats++
+						return true
+					}
+				}
+				return false
+			}},
+			{"output-append", func(t *caseTx, i *int, a *uint64, l *[]byte) bool {
+				t.Outs = append(t.Outs, caseOut{Sats: 9, Script: ints(*p2pkhScript(0x99))})
+				return true
+			}},
+			{"output-remove-last", func(t *caseTx, i *int, a *uint64, l *[]byte) bool {
+				if len(t.Outs) == 0 {
+					return false
+				}
+				t.Outs = t.Outs[:len(t.Outs)-1]
+				return true
+			}},
+			{"input-append", func(t *caseTx, i *int, a *uint64, l *[]byte) bool {
+				t.Ins = append(t.Ins, caseIn{Tag: 0x77, Vout: 1, Seq: 0xffffffff})
+				return true
+			}},
+			{"input-insert-before", func(t *caseTx, i *int, a *uint64, l *[]byte) bool {
+				t.Ins = append([]caseIn{{Tag: 0x78, Vout: 2, Seq: 0xffffffff}}, t.Ins...)
+				*i++
+				return true
+			}},
+			{"input-remove-other", func(t *caseTx, i *int, a *uint64, l *[]byte) bool {
+				o := other(t, *i)
+				if o < 0 {
+					return false
+				}
+				t.Ins = append(t.Ins[:o:o], t.Ins[o+1:]...)
+				if o < *i {
+					*i--
+				}
+				return true
+			}},
+			{"spent-value", func(t *caseTx, i *int, a *uint64, l *[]byte) bool { *a++; return true }},
+			{"spent-script", func(t *caseTx, i *int, a *uint64, l *[]byte) bool { *l = append(append([]byte{}, *l...), 0x61); return true }},
+		}
+		for _, m := range muts {
+			if rng.Intn(3) != 0 && n > 50 {
+				continue
+			}
+			t2, i2, a2, l2 := cloneCaseTx(tx), idx, amount, append([]byte{}, *lock...)
+			if !m.f(t2, &i2, &a2, &l2) {
+				continue
+			}
+			note(tx, idx, *lock, amount)
+			emit("mut", "commit-"+m.name, unlock, l2, fl, t2, i2, a2)
+		}
 	}
 	return nil
 }
